@@ -37,6 +37,68 @@ def scanSeq (t : Abi.Ty) (capx : Nat) : Abi.St → List String → List String
       | .ok s' => ("ok " ++ showRows b s'.rows) :: scanSeq t capx s' rest
       | r => r.tag :: scanSeq t capx s rest
 
+def splitList (s : String) (sep : String) : List String := if s == "_" then [] else s.splitOn sep
+
+def pad12 (n : Nat) : String :=
+  let d := toString n
+  String.ofList (List.replicate (12 - d.length) '0') ++ d
+
+def sortStrings (xs : List String) : List String :=
+  let ins (x : String) : List String → List String :=
+    fun l => (l.takeWhile (· < x)) ++ x :: (l.dropWhile (· < x))
+  xs.foldl (fun acc x => ins x acc) []
+
+
+/-! ### RPC client ops (C07) -/
+
+def parseEl {α} (s : String) (f : String → Option α) : Option (Rpc.El α) :=
+  if s == "E" then some .error else if s == "N" then some .null
+  else (f s).map .val
+
+def parseHdrEl (s : String) : Option (Rpc.El (Rpc.Hdr × List Nat)) :=
+  parseEl s fun s => match s.splitOn ":" with
+    | [_, n, h, p, txs] => n.toNat?.map fun n =>
+        ({ num := n, hash := h, parent := p }, (splitList txs ",").filterMap (·.toNat?))
+    | _ => none
+
+def parseItems (s : String) : List Rpc.Item :=
+  (splitList s ";").filterMap fun e => match e.splitOn "/" with
+    | [b, h, t, i] => match b.toNat?, t.toNat?, i.toNat? with
+      | some b, some t, some i => some { bnum := b, bhash := h, tx := t, idx := i }
+      | _, _, _ => none
+    | _ => none
+
+def parseRcpts (s : String) : List Rpc.Rcpt :=
+  (splitList s ";").filterMap fun e => match e.splitOn "/" with
+    | [b, h, t, ls] => match b.toNat?, t.toNat? with
+      | some b, some t => some { bnum := b, bhash := h, tx := t, logs := (splitList ls ".").filterMap (·.toNat?) }
+      | _, _ => none
+    | _ => none
+
+/-- one exchange: `X` | `H=el,el` | `R=el|el` | `L=hdrEl|logsEl|n` | `T=el` -/
+def parseExch (s : String) : Option Rpc.Exch :=
+  if s == "X" then some .fail
+  else match s.splitOn "=" with
+  | ["H", body] => ((splitList body "|").mapM parseHdrEl).map .headers
+  | ["R", body] => ((splitList body "|").mapM fun e => parseEl e fun x => some (parseRcpts (x.drop 2).toString)).map .receipts
+  | ["L", body] => match body.splitOn "|" with
+    | [h, l, n] =>
+      match parseEl h (fun s => match s.splitOn ":" with
+          | [_, n, hh, p, _] => n.toNat?.map fun n => ({ num := n, hash := hh, parent := p } : Rpc.Hdr)
+          | _ => none),
+        parseEl l (fun x => some (parseItems (x.drop 2).toString)), n.toNat? with
+      | some h, some l, some n => some (.logs h l n)
+      | _, _, _ => none
+    | _ => none
+  | ["T", body] => (parseEl body fun x => some (parseItems (x.drop 2).toString)).map .traces
+  | _ => none
+
+def showBlocks (bs : List Rpc.Block) : String :=
+  "|".intercalate (bs.map fun b =>
+    let txs := sortStrings (b.txs.map fun t => s!"{pad12 t.idx}:" ++ ".".intercalate (t.logs.map toString) ++ s!":{t.traces}")
+    s!"{b.num}/{b.hash}/{b.parent}/" ++ ",".intercalate txs)
+
+
 /-! ### row builder ops -/
 
 def parseFilter (s : String) : Row.Filter :=
@@ -54,7 +116,6 @@ def parseFilter (s : String) : Row.Filter :=
       | _ => { op := op, args := args }
     | none => { op := op, args := args }
 
-def splitList (s : String) (sep : String) : List String := if s == "_" then [] else s.splitOn sep
 
 def parseDVal (s : String) : Row.DVal :=
   match s.splitOn ":" with
@@ -181,6 +242,15 @@ def step (line : String) : String :=
       let as := Row.pushedAddrs d
       if as.isEmpty then "-" else ",".intercalate (as.map hexOfBytes)
     | none => "bad-op"
+  | "rpcget" :: plan :: start :: limit :: xs =>
+    match start.toNat?, limit.toNat?, xs.mapM parseExch with
+    | some st, some lim, some xs =>
+      let p : Rpc.Plan := { blocks := plan.contains 'b', headers := plan.contains 'h', receipts := plan.contains 'r',
+                            logs := plan.contains 'l', traces := plan.contains 't' }
+      match Rpc.get p st lim xs with
+      | some bs => "ok " ++ showBlocks bs
+      | none => "err"
+    | _, _, _ => "bad-op"
   | ["planflags", fields] =>
     let fs := if fields == "-" then [] else fields.splitOn ","
     let flags := Plan.plan fs
@@ -227,15 +297,6 @@ structure DState where
   db : World.DB := {}
   tasks : List (String × World.Task) := []
   saved : List (String × World.DB) := []
-
-def pad12 (n : Nat) : String :=
-  let d := toString n
-  String.ofList (List.replicate (12 - d.length) '0') ++ d
-
-def sortStrings (xs : List String) : List String :=
-  let ins (x : String) : List String → List String :=
-    fun l => (l.takeWhile (· < x)) ++ x :: (l.dropWhile (· < x))
-  xs.foldl (fun acc x => ins x acc) []
 
 def dbDigest (db : World.DB) : String :=
   let cs := sortStrings (db.cur.map fun c => s!"{c.src}/{c.ig}/{pad12 c.num}/{c.hash}")
